@@ -1,5 +1,5 @@
 import Driver.Proto
-import Model.RBTree
+import Model.RBTreeChecked
 open Proto RB
 
 /-- two trees per history (`swap` exchanges them; all other operations act on `tree`), sharing the compare function -/
@@ -40,6 +40,9 @@ def dumpT : T Int Int → String
 /-- The trailing ` c=N` is the model's own number of compare calls; the check strips it (exact counts are not part of
     the property) and keeps it as an informational statistic.  `cmp-ok` is the constant verdict of the comparison
     bound (the model meets it by `C06.compares_run`).
+    `ins`/`rem` run the PARTIAL operations `Tree.insertC` / `Tree.removeC` (every pointer access of the Go fix-ups is an
+    `Option`); `nil-deref` would mean the model reached a state in which the Go code dereferences `nil` —
+    `C06.fixups_never_dereference_nil` proves it never happens and that the results are those of `Tree.insert/remove`.
     `pins`/`prem`/`pget`: the compare function panics at its first call — an operation that calls `compare` at all
     (model count ≠ 0, i.e. the tree is not empty) is abandoned before it has modified anything. -/
 def step (st : DState) (line : String) : DState × String :=
@@ -51,27 +54,35 @@ def step (st : DState) (line : String) : DState × String :=
   | ["swap"] => ({ st with tree := st.other, other := st.tree }, "ok")
   | ["ins", k, v] =>
     match parseInt? k, parseInt? v with
-    | some k, some v => let (t', c) := t.insert cmp k v; ({ st with tree := t' }, "done cmp-ok c=" ++ toString c)
+    | some k, some v =>
+      match t.insertC cmp k v with
+      | some (t', c) => ({ st with tree := t' }, "done cmp-ok c=" ++ toString c)
+      | none => (st, "nil-deref")
     | _, _ => (st, "bad-op")
   | ["pins", k, v] =>
     match parseInt? k, parseInt? v with
     | some k, some v =>
-      let (t', c) := t.insert cmp k v
-      if c == 0 then ({ st with tree := t' }, "done cmp-ok c=0") else (st, "cmp-panic")
+      match t.insertC cmp k v with
+      | some (t', c) => if c == 0 then ({ st with tree := t' }, "done cmp-ok c=0") else (st, "cmp-panic")
+      | none => (st, "nil-deref")
     | _, _ => (st, "bad-op")
   | ["rem", k] =>
     match parseInt? k with
     | some k =>
-      let (t', c) := t.remove cmp k
-      ({ st with tree := t' }, (if t'.count != t.count then "removed" else "absent") ++ " cmp-ok c=" ++ toString c)
+      match t.removeC cmp k with
+      | some (t', c) =>
+        ({ st with tree := t' }, (if t'.count != t.count then "removed" else "absent") ++ " cmp-ok c=" ++ toString c)
+      | none => (st, "nil-deref")
     | _ => (st, "bad-op")
   | ["prem", k] =>
     match parseInt? k with
     | some k =>
-      let (t', c) := t.remove cmp k
-      if c == 0 then
-        ({ st with tree := t' }, (if t'.count != t.count then "removed" else "absent") ++ " cmp-ok c=0")
-      else (st, "cmp-panic")
+      match t.removeC cmp k with
+      | some (t', c) =>
+        if c == 0 then
+          ({ st with tree := t' }, (if t'.count != t.count then "removed" else "absent") ++ " cmp-ok c=0")
+        else (st, "cmp-panic")
+      | none => (st, "nil-deref")
     | _ => (st, "bad-op")
   | ["get", k] =>
     match parseInt? k with
